@@ -62,6 +62,18 @@ def bounded_cases(ctx: Ctx):
                         if c["method"] == "blockwise" and not blockwise_precondition(c):
                             c["method"] = None
                     cases.append(c)
+    # no element has a valid label but labels are requested: every slot is the fill, with the leading quantile axis kept
+    for func in FUNCS:
+        for n in (1, 3):
+            for q in QS:
+                i += 1
+                c = dict(array=enc(np.arange(float(n))), by=[enc(np.array([np.nan] * n))], func=func, expected_groups=[[5.0, 15.0]], fill_value="nan", engine=[None, "flox"][i % 2])
+                if "quantile" in func:
+                    c["finalize_kwargs"] = {"q": q}
+                if i % 2 and n > 1:
+                    c["chunks"] = [[n]]
+                    c["method"] = "blockwise"
+                cases.append(c)
     return cases
 
 
